@@ -407,7 +407,7 @@ impl Space for AllAtOnce {
     }
 }
 
-/// column / row runs: every assignment of 4 states to columns 1..5 (1024) and to rows 1..3 (64)
+/// column / row runs: every assignment of 5 states to columns 1..5 (3125) and to rows 1..3 (125)
 struct Dims;
 fn dim_style(k: u64) -> Option<Style> {
     match k {
@@ -418,18 +418,18 @@ fn dim_style(k: u64) -> Option<Style> {
 }
 impl Space for Dims {
     fn len(&self) -> u64 {
-        1024 + 64
+        3125 + 125
     }
     fn describe(&self, i: u64) -> Value {
-        if i < 1024 {
-            json!({"kind":"column-runs","states(col1..5)": (0..5).map(|c| (i >> (2*c)) & 3).collect::<Vec<_>>(), "legend": "0 absent, 1 width 20, 2 bold style, 3 fill style + width 20 + hidden"})
+        if i < 3125 {
+            json!({"kind":"column-runs","states(col1..5)": (0..5).map(|c| (i / 5u64.pow(c as u32)) % 5).collect::<Vec<_>>(), "legend": "0 absent, 1 width 20, 2 bold style, 3 fill style + width 20 + hidden, 4 hidden only"})
         } else {
-            let j = i - 1024;
-            json!({"kind":"row-runs","states(row1..3)": (0..3).map(|c| (j >> (2*c)) & 3).collect::<Vec<_>>(), "legend": "0 absent, 1 height 30, 2 bold style, 3 fill style + height 30 + hidden"})
+            let j = i - 3125;
+            json!({"kind":"row-runs","states(row1..3)": (0..3).map(|c| (j / 5u64.pow(c as u32)) % 5).collect::<Vec<_>>(), "legend": "0 absent, 1 height 30, 2 bold style, 3 fill style + height 30 + hidden, 4 hidden only"})
         }
     }
     fn tags(&self, i: u64) -> Vec<String> {
-        vec![if i < 1024 { "columns".into() } else { "rows".into() }]
+        vec![if i < 3125 { "columns".into() } else { "rows".into() }]
     }
     fn run(&self, i: u64, sink: &mut Sink) {
         let tl = self.tags(i);
@@ -439,9 +439,9 @@ impl Space for Dims {
         let ws = b.get_sheet_mut(&0).unwrap();
         ws.get_cell_mut("A1").set_value_number(1);
         ws.get_cell_mut("F4").set_value_number(2);
-        if i < 1024 {
+        if i < 3125 {
             for c in 0..5u32 {
-                let st = (i >> (2 * c)) & 3;
+                let st = (i / 5u64.pow(c)) % 5;
                 if st == 0 {
                     continue;
                 }
@@ -449,7 +449,7 @@ impl Space for Dims {
                 if st == 1 || st == 3 {
                     col.set_width(20.0);
                 }
-                if st == 3 {
+                if st == 3 || st == 4 {
                     col.set_hidden(true);
                 }
                 if let Some(s) = dim_style(st) {
@@ -457,9 +457,9 @@ impl Space for Dims {
                 }
             }
         } else {
-            let j = i - 1024;
+            let j = i - 3125;
             for r in 0..3u32 {
-                let st = (j >> (2 * r)) & 3;
+                let st = (j / 5u64.pow(r)) % 5;
                 if st == 0 {
                     continue;
                 }
@@ -468,7 +468,7 @@ impl Space for Dims {
                     row.set_height(30.0);
                     row.set_custom_height(true);
                 }
-                if st == 3 {
+                if st == 3 || st == 4 {
                     row.set_hidden(true);
                 }
                 if let Some(s) = dim_style(st) {
@@ -506,7 +506,7 @@ impl Space for Dims {
             }
         };
         let mut obs = String::new();
-        if i < 1024 {
+        if i < 3125 {
             for c in 1..=7u32 {
                 let (p, q) = (proj_col(ws1, c), proj_col(ws2, c));
                 obs.push_str(&q.to_string());
@@ -849,7 +849,7 @@ fn run(ctx: &Ctx) -> i32 {
             spaces,
             cfg: PoolCfg { chunk: 16, case_timeout: std::time::Duration::from_secs(300), ..Default::default() },
             level: "exploration",
-            rule: "style alphabet = base + every single-attribute variation (sigma1) + every pair of variations (sigma2) + a separator-collision family; (pairs) every ordered pair of sigma1 in a two-cell workbook, alternating writers; (all-at-once) whole sets in one workbook in forward and reverse order, which covers every ordered (earlier, later) pair for interning merges; (dims) every assignment of 4 states to columns 1..5 and rows 1..3; (transfer) every sigma1 style read back from one workbook and given to a cell of another reloaded workbook whose tables use the same ids for other components; (edit-after-load) two cells sharing one sigma1 style (quick: every third), reloaded, one of them edited in place with every single variation, compared with a twin workbook that was given the final styles directly (the sibling must not change); (overwrite-same-attribute) per attribute every ordered pair of its values applied to the same style object one after the other; (second-session) a saved workbook is reloaded and new cells get styles built from scratch - three times a style the file already contains and once another one - compared cell by cell with a twin that was given everything in one session. Oracle: field-by-field effective style projection given == reloaded, where a never-set component equals the component shown by control cells after reload; style tables of generation 2 == generation 3 (read by the independent Python decoder). distinct_nontrivial = distinct reloaded effective projections".into(),
+            rule: "style alphabet = base + every single-attribute variation (sigma1) + every pair of variations (sigma2) + a separator-collision family; (pairs) every ordered pair of sigma1 in a two-cell workbook, alternating writers; (all-at-once) whole sets in one workbook in forward and reverse order, which covers every ordered (earlier, later) pair for interning merges; (dims) every assignment of 5 states (absent / size / style / all / hidden only) to columns 1..5 and rows 1..3; (transfer) every sigma1 style read back from one workbook and given to a cell of another reloaded workbook whose tables use the same ids for other components; (edit-after-load) two cells sharing one sigma1 style (quick: every third), reloaded, one of them edited in place with every single variation, compared with a twin workbook that was given the final styles directly (the sibling must not change); (overwrite-same-attribute) per attribute every ordered pair of its values applied to the same style object one after the other; (second-session) a saved workbook is reloaded and new cells get styles built from scratch - three times a style the file already contains and once another one - compared cell by cell with a twin that was given everything in one session. Oracle: field-by-field effective style projection given == reloaded, where a never-set component equals the component shown by control cells after reload; style tables of generation 2 == generation 3 (read by the independent Python decoder). distinct_nontrivial = distinct reloaded effective projections".into(),
             alphabets: json!({"attributes": ATTRS.iter().map(|a| format!("{}x{}", a.0, a.1)).collect::<Vec<_>>(), "sigma1": sigma1().len(), "sigma2": sigma2().len(), "collision_family": collision_family().len()}),
             bounds: json!({"all-at-once": if ctx.tier == Tier::Thorough {"sigma1 + sigma2 + collision family in one workbook"} else {"sigma1; collision family; sigma2 restricted to the seven font attributes"}}),
             exhaustive: true,
